@@ -27,6 +27,11 @@ theorem txOf_negotiate (l r : List Cap) (f : Family) :
   unfold Spec.txOf; rw [stOf_negotiate]
   by_cases h : f ∈ commonFams l r <;> simp [h, famStateOf]
 
+theorem enhOf_negotiate (l r : List Cap) (f : Family) :
+    Spec.enhOf (negotiate l r) f = (decide (f ∈ commonFams l r) && (enhAdv f l && enhAdv f r)) := by
+  unfold Spec.enhOf; rw [stOf_negotiate]
+  by_cases h : f ∈ commonFams l r <;> simp [h, famStateOf]
+
 theorem tx_eq (c : Codec) (f : Family) : c.tx f = Spec.txOf c f := rfl
 
 theorem advMp_iff (v : List Cap) (f : Family) : Spec.advMp v f = true ↔ Cap.mp f ∈ v := by
@@ -128,15 +133,6 @@ theorem advEnh_eq (v : List Cap) (f : Family) : Spec.advEnh v f = enhAdv f v := 
   congr 1; funext t
   simp only [famAfi, AFI_IP, AFI_IP6]
   by_cases h1 : t.1 = f <;> by_cases h2 : t.1 / 65536 = 1 <;> by_cases h3 : t.2 = 2 <;> simp [h1, h2, h3]
-
-theorem enh_clause (l r : List Cap) (all : List Family) (hall : ∀ f ∈ commonFams l r, f ∈ all) :
-    (negotiate l r).enh = all.any (fun f => Spec.advMp l f && Spec.advMp r f && Spec.advEnh l f && Spec.advEnh r f) := by
-  rw [Bool.eq_iff_iff, enh_iff_both]
-  simp only [List.any_eq_true, Bool.and_eq_true, advMp_iff, advEnh_eq]
-  constructor
-  · rintro ⟨f, h1, h2, h3, h4⟩
-    exact ⟨f, hall f (by rw [mem_commonFams, mem_mpFams, mem_mpFams]; exact ⟨h1, h2⟩), ⟨⟨⟨h1, h2⟩, h3⟩, h4⟩⟩
-  · rintro ⟨f, _, ⟨⟨⟨h1, h2⟩, h3⟩, h4⟩⟩; exact ⟨f, h1, h2, h3, h4⟩
 
 /-! ### send-max -/
 
@@ -658,6 +654,15 @@ theorem checkNeg_model (l r : List Cap) (sm : List (Family × Nat)) :
       have b := lastMode_of_all f _ bit0 h.2.1 h.2.2
       rw [txOf_negotiate]; simp [hf, a, b]
     · simp [h]
+  have c2e : (Spec.famsOf (negotiate l r)).all (fun f => Spec.enhOf (negotiate l r) f == Spec.enhOf (negotiate r l) f) = true := by
+    apply all_of_forall; intro f
+    rw [enhOf_negotiate, enhOf_negotiate, commonFams_comm r l]; simp [Bool.and_comm]
+  have c11 : (Spec.famsOf (negotiate l r)).all (fun f => Spec.enhOf (negotiate l r) f == (Spec.advEnh l f && Spec.advEnh r f)) = true := by
+    rw [List.all_eq_true]; intro f hf
+    rw [hfl] at hf
+    rw [enhOf_negotiate, advEnh_eq, advEnh_eq]; simp [hf]
+  have c11b : ((negotiate l r).enh == Spec.enhOf (negotiate l r) 65537) = true := by
+    rw [beq_iff_eq, enhOf_negotiate]; rfl
   have c9 : ((negotiate l r).extMsg == (Spec.advExtMsg l && Spec.advExtMsg r)) = true := by simp [negotiate, advExtMsg_eq]
   have c10 : ((negotiate l r).as4 == (Spec.advAs4 l && Spec.advAs4 r)) = true := by simp [negotiate, advAs4_eq]
   have c13 : (Spec.emaxOk sm (negotiate l r) (effectiveMax sm l r) && Spec.emaxOk sm (negotiate r l) (effectiveMax sm r l)) = true := by
@@ -671,13 +676,9 @@ theorem checkNeg_model (l r : List Cap) (sm : List (Family × Nat)) :
       List.filterMap (fun c => match c with | Cap.mp f => some f | _ => none) (l ++ r)) = all
   have c4 : all.all (fun f => (Spec.famsOf (negotiate l r)).contains f == (Spec.advMp l f && Spec.advMp r f)) = true := by
     apply all_of_forall; intro f; rw [hfl, contains_common]; simp
-  have c11 : ((negotiate l r).enh == all.any (fun f => Spec.advMp l f && Spec.advMp r f && Spec.advEnh l f && Spec.advEnh r f)) = true := by
-    rw [beq_iff_eq]
-    apply enh_clause
-    intro f hf; rw [← hall, hfl]; simp [hf]
   have c16 := gr_missing l r all
   have c20 := llgr_missing l r all
-  simp only [Spec.firstFail, c1, c2, c3, c4, c5, c6, c7, c8, c9, c10, c11, c13, c14, c15, c16, c19, c20]
+  simp only [Spec.firstFail, c1, c2, c2e, c3, c4, c5, c6, c7, c8, c9, c10, c11, c11b, c13, c14, c15, c16, c19, c20]
   have hs := llgr_sym_clause l r
   simp [Spec.imp, hs, Spec.firstFail]
 
